@@ -57,9 +57,16 @@ CORPUS_GEN = r'''
 (add "peg2" (peg/compile ~(* (int 2) (lenprefix (number :d) "x") (cmt (<- 1) ,identity) (sub (to ";") (<- :w+)) (split "," :d))))
 (def ch (ev/chan 4)) (ev/give ch 1) (ev/give ch "two") (add "channel" ch)
 (add "mixed" @{:f (fn [] 1) :g gen :p (peg/compile "a") :i (int/s64 7) :t [1 2]})
+(defn frames-meta [tag v depth]
+  # for fibers: saved pc and bytecode length of every frame (guides boundary substitutions of the pc field)
+  (cond
+    (fiber? v) (each fr (debug/stack v)
+                 (when (and (function? (fr :function)) (number? (fr :pc)))
+                   (print "META " tag " " (fr :pc) " " (length ((disasm (fr :function)) :bytecode)))))
+    (and (< depth 2) (or (indexed? v) (dictionary? v))) (each x v (frames-meta tag x (+ depth 1)))))
 (each [tag v] vals
   (def r (protect (marshal v make-image-dict)))
-  (when (r 0) (print tag " " (hex (r 1)))))
+  (when (r 0) (print tag " " (hex (r 1))) (frames-meta tag v 0)))
 '''
 
 DRIVER = r'''
@@ -77,6 +84,16 @@ DRIVER = r'''
   (def f (fiber/new thunk :a))
   (fiber/setmaxstack f 4096)
   (protect (resume f)))
+(defn check-frames [v]
+  # invariant on an ACCEPTED fiber, read through the debugger interface: every frame's saved pc lies inside its function's bytecode
+  (def st (protect (debug/stack v)))
+  (when (st 0)
+    (each fr (st 1)
+      (def f (get fr :function)) (def pc (get fr :pc))
+      (when (and (function? f) (number? pc))
+        (def bc (protect (length (get (disasm f) :bytecode))))
+        (when (and (bc 0) (not (and (>= pc 0) (< pc (bc 1)))))
+          (eprint "INVARIANT frame-pc-outside-bytecode pc=" pc " length=" (bc 1)))))))
 (defn exercise [v depth]
   (protect (string/format "%p" v)) (protect (string/format "%j" v)) (protect (string/format "%q" v)) (protect (describe v))
   (protect (= v v)) (protect (hash v)) (protect (compare v v)) (protect (deep= v [v]))
@@ -84,7 +101,7 @@ DRIVER = r'''
   (cond
     (function? v) (do (protect (disasm v))
                     (each args [[] [1] [nil "s"] [@[] {} :k] [1 2 3 4 5 6 7 8]] (budget (fn [] (v ;args)))))
-    (fiber? v) (do (protect (fiber/status v)) (protect (fiber/last-value v)) (protect (fiber/getenv v)) (protect (debug/stack v))
+    (fiber? v) (do (protect (fiber/status v)) (protect (fiber/last-value v)) (protect (fiber/getenv v)) (check-frames v)
                  (budget (fn [] (resume v 1))) (budget (fn [] (resume v))) (budget (fn [] (cancel v :x))))
     (= (type v) :core/peg) (do (protect (peg/match v "12,a,b;abc")) (protect (peg/match v "")) (protect (peg/find-all v "\x01\x02x;1,2")))
     (= (type v) :core/channel) (do (protect (ev/count v)) (protect (ev/capacity v)) (protect (ev/full v))
@@ -222,6 +239,9 @@ def run_inputs(ctx, exe, d, name, mode, lines, files_base, cls=None):
                     last_b = int(line[2:])
                 except ValueError:
                     pass
+            elif line.startswith("INVARIANT ") and 0 <= last_b < total:
+                ctx.violation("%s:invariant:%s" % (pfx, line.split()[1]), "accepted value breaks a structural invariant: %s (input %s...)" % (line, lines[last_b][:80]),
+                              dict(files_base, **{"input.txt": lines[last_b] + "\n", "mode.txt": mode}))
         ended = "END accepted=" in err
         if ended:
             tail = err[err.rindex("END accepted="):].split()
@@ -277,7 +297,12 @@ def run(ctx):
     # relative script name: the source path is embedded in every function image, and the corpus (hence every mutant) must not depend on the run directory
     res = core.run([exe, "corpus.janet"], timeout=120, cwd=d)
     corpus = []
+    meta = {}
     for line in res.out.decode(errors="replace").splitlines():
+        if line.startswith("META "):
+            _, tag, pc, ln = line.split(" ")
+            meta.setdefault(tag, set()).add((int(pc), int(ln)))
+            continue
         tag, hx = line.split(" ")
         corpus.append((tag, bytes.fromhex(hx)))
     core.discard(res)
@@ -288,6 +313,15 @@ def run(ctx):
     rng = ctx.rng
     for tag, img in corpus:
         muts = mutants_for(img, random.Random(ctx.sub_seed("m", tag)), quick)
+        # field-guided boundary values: wherever a byte equals a frame's saved pc, try the neighbourhood of that function's bytecode length
+        for pc, ln in sorted(meta.get(tag, ())):
+            if pc < 0x80:
+                for pos in range(len(img)):
+                    if img[pos] == pc:
+                        for v in (ln - 1, ln, ln + 1, ln + 2):
+                            if 0 <= v < 0x80:
+                                muts.append(img[:pos] + bytes([v]) + img[pos + 1:])
+                                ctx.count("pc_field_guided_mutants")
         # unique, and count the ones that got past the first byte
         seen = set()
         uniq = []
